@@ -180,6 +180,7 @@ func (k Keeper) DeleteMeta(ctx sdk.Context, dataId string) error {
 	}
 
 	key := fmt.Sprintf("%s-%s-%s", metadata.Owner, metadata.Alias, metadata.GroupId)
+	k.removeDataExpireBlock(ctx, dataId, metadata.CreatedAt+metadata.Duration)
 	k.RemoveMetadata(ctx, dataId)
 	k.RemoveModel(ctx, key)
 
@@ -228,11 +229,13 @@ func (k Keeper) removeDataExpireBlock(ctx sdk.Context, dataId string, expiredAt 
 		return
 	}
 
-	for idx, id := range expiredData.Data {
-		if id == dataId {
-			expiredData.Data = append(expiredData.Data[:idx], expiredData.Data[idx+1:]...)
+	remaining := make([]string, 0, len(expiredData.Data))
+	for _, id := range expiredData.Data {
+		if id != dataId {
+			remaining = append(remaining, id)
 		}
 	}
+	expiredData.Data = remaining
 
 	if len(expiredData.Data) == 0 {
 		k.RemoveExpiredData(ctx, expiredData.Height)
@@ -297,6 +300,7 @@ func (k Keeper) RollbackMeta(ctx sdk.Context, dataId string) {
 	}
 
 	if len(metadata.Commits) == 0 {
+		k.removeDataExpireBlock(ctx, dataId, metadata.CreatedAt+metadata.Duration)
 		k.RemoveMetadata(ctx, dataId)
 
 		key := fmt.Sprintf("%s-%s-%s", metadata.Owner, metadata.Alias, metadata.GroupId)
